@@ -38,6 +38,10 @@ pub trait Brancher {
         requires old(self).inv(), ensures final(self).inv(), final(self).rewound();   // @C18 events that unfix variables rewind the brancher
     fn on_unassign_integer(&mut self, variable: DomainId, value: i32)
         requires old(self).inv(), ensures final(self).inv();
+    // the events this brancher wants to be told about
+    spec fn subs(&self) -> Seq<BrancherEvent>;
+    fn subscribe_to_events(&self) -> (r: Vec<BrancherEvent>)
+        ensures r@ == self.subs();
 }
 // enum_map::EnumMap by the documented map semantics
 pub struct EnumMap<K, V> { pub m: Ghost<Map<K, V>>, pub x: Option<(K, V)> }
@@ -50,17 +54,78 @@ impl<K, V> vstd::std_specs::core::IndexSpecImpl<K> for EnumMap<K, V> {
 impl<K, V> std::ops::Index<K> for EnumMap<K, V> {
     type Output = V;
     #[verifier::external_body]
-    fn index(&self, k: K) -> (r: &V) ensures *r == self.at(k) { unimplemented!() }
+    fn index(&self, k: K) -> (r: &V) ensures *r == self.m@[k] { unimplemented!() }
 }
 
+impl<K, V> std::ops::IndexMut<K> for EnumMap<K, V> {
+    #[verifier::external_body]
+    fn index_mut(&mut self, k: K) -> (r: &mut V)
+        ensures *r == old(self).m@[k], final(self).m@ == old(self).m@.insert(k, *final(r)),
+    { unimplemented!() }
+}
+impl<K> EnumMap<K, Vec<usize>> {
+    #[verifier::external_body]
+    pub fn default() -> (r: Self) ensures forall|k: K| #![trigger r.m@[k]] r.m@[k]@.len() == 0 { unimplemented!() }
+}
+// <[T]>::contains by its documented semantics
+pub assume_specification<T: PartialEq> [<[T]>::contains] (s: &[T], x: &T) -> (r: bool)
+    ensures r == s@.contains(*x);
+// std HashSet by the documented set semantics
+pub struct HashSet<T> { pub s: Ghost<Set<T>> }
+impl<T> HashSet<T> {
+    #[verifier::external_body]
+    pub fn new() -> (r: Self) ensures r.s@ == Set::<T>::empty() { unimplemented!() }
+    #[verifier::external_body]
+    pub fn insert(&mut self, x: T) -> (r: bool) ensures final(self).s@ == old(self).s@.insert(x) { unimplemented!() }
+}
+#[verifier::external_body]
+pub fn pv_into_vec<T>(set: HashSet<T>) -> (r: Vec<T>) ensures forall|x: T| #![trigger r@.contains(x)] r@.contains(x) <==> set.s@.contains(x) { unimplemented!() }
+
+// bookkeeping of the subscriptions while they are collected
+pub type EvMap = Map<BrancherEvent, Vec<usize>>;
+pub open spec fn covered(m: EvMap, has: spec_fn(BrancherEvent) -> bool, subs: Seq<BrancherEvent>, upto: int, i: usize) -> bool {
+    forall|j: int| #![trigger subs[j]] 0 <= j < upto ==> m[subs[j]]@.contains(i) && has(subs[j])
+}
+pub open spec fn idx_bound(m: EvMap, n: int) -> bool {
+    forall|e: BrancherEvent, q: int| #![trigger m[e]@[q]] 0 <= q < m[e]@.len() ==> m[e]@[q] < n
+}
+pub open spec fn grows(m2: EvMap, m1: EvMap) -> bool {
+    forall|e: BrancherEvent, x: usize| #![trigger m1[e]@.contains(x)] m1[e]@.contains(x) ==> m2[e]@.contains(x)
+}
+pub proof fn lemma_push_contains_usize(v: Seq<usize>, x: usize)
+    ensures forall|y: usize| #![trigger v.push(x).contains(y)] v.push(x).contains(y) <==> (v.contains(y) || y == x)
+{
+    assert forall|y: usize| #![trigger v.push(x).contains(y)] v.push(x).contains(y) <==> (v.contains(y) || y == x) by {
+        if v.contains(y) { let i = choose|i: int| 0 <= i < v.len() && v[i] == y; assert(v.push(x)[i] == y); }
+        if y == x { assert(v.push(x)[v.len() as int] == x); }
+        if v.push(x).contains(y) { let i = choose|i: int| 0 <= i < v.push(x).len() && v.push(x)[i] == y; if i < v.len() { assert(v[i] == y); } }
+    }
+}
+pub proof fn lemma_push_contains_ev(v: Seq<BrancherEvent>, x: BrancherEvent)
+    ensures forall|y: BrancherEvent| #![trigger v.push(x).contains(y)] v.push(x).contains(y) <==> (v.contains(y) || y == x)
+{
+    assert forall|y: BrancherEvent| #![trigger v.push(x).contains(y)] v.push(x).contains(y) <==> (v.contains(y) || y == x) by {
+        if v.contains(y) { let i = choose|i: int| 0 <= i < v.len() && v[i] == y; assert(v.push(x)[i] == y); }
+        if y == x { assert(v.push(x)[v.len() as int] == x); }
+        if v.push(x).contains(y) { let i = choose|i: int| 0 <= i < v.push(x).len() && v.push(x)[i] == y; if i < v.len() { assert(v[i] == y); } }
+    }
+}
 //@@EXTRACT s_dyn@@
 
 impl DynamicBrancher {
     // the index vectors only name existing branchers
     pub open spec fn wf(&self) -> bool {
         &&& forall|i: int| #![trigger self.branchers@[i]] 0 <= i < self.branchers@.len() ==> self.branchers@[i].inv()
-        &&& forall|e: BrancherEvent, i: int| #![trigger self.relevant_event_to_index.at(e)@[i]] 0 <= i < self.relevant_event_to_index.at(e)@.len() ==> self.relevant_event_to_index.at(e)@[i] < self.branchers@.len()
+        &&& idx_bound(self.relevant_event_to_index.m@, self.branchers@.len() as int)
     }
+    // @C18 @C07 the composite asks for the events that rewind it, and for every event one of its branchers asks for;
+    // an event a brancher asks for is passed on to it
+    pub open spec fn subscribed(&self) -> bool {
+        &&& self.relevant_events@.contains(BrancherEvent::Solution) && self.relevant_events@.contains(BrancherEvent::Conflict) && self.relevant_events@.contains(BrancherEvent::Backtrack)
+        &&& forall|i: int, j: int| #![trigger self.branchers@[i].subs()[j]] 0 <= i < self.branchers@.len() && 0 <= j < self.branchers@[i].subs().len() ==>
+                self.relevant_event_to_index.m@[self.branchers@[i].subs()[j]]@.contains(i as usize) && self.relevant_events@.contains(self.branchers@[i].subs()[j])
+    }
+//@@EXTRACT dynnew@@
     // @C18 every brancher from index `from` on vouches for its variables
     pub open spec fn all_cover(&self, from: int, state: int) -> bool {
         forall|i: int| #![trigger self.branchers@[i]] from <= i < self.branchers@.len() ==> self.branchers@[i].covers(state)
@@ -75,6 +140,7 @@ impl Brancher for DynamicBrancher {
     open spec fn covers(&self, state: int) -> bool { self.all_cover(self.brancher_index as int, state) }
     open spec fn inv(&self) -> bool { self.wf() }
     open spec fn rewound(&self) -> bool { self.brancher_index == 0 }
+    open spec fn subs(&self) -> Seq<BrancherEvent> { self.relevant_events@ }
 //@@IFMISSING dynb::on_conflict@@ fn on_conflict(&mut self) {}
 //@@IFMISSING dynb::on_backtrack@@ fn on_backtrack(&mut self) {}
 //@@IFMISSING dynb::on_solution@@ fn on_solution(&mut self, solution: SolutionReference) {}
